@@ -73,10 +73,11 @@ C10_SCRATCH = [_h(f"c04f::c10_scratch__{t}", timeout=900, bound=_SCR_B) for t in
 C10_SCRATCH_THOROUGH = C10_SCRATCH + [_h(f"c04f::{h}", timeout=3600, bound=_SCR_B) for h in
                                       ["c10_scratch_layered__Tanhf32", "c10_scratch_layered__Minstarapproxf32",
                                        "c10_scratch_layered__Minstarapproxf64", "c10_scratch__Aminstarf32"]]
+C10_SCRATCH8 = [_h(f"c05::c10_scratch8__{t}", bound="8-bit arithmetic scratch buffer: degree 3 then degree 2, every value in range (complete for these degrees)") for t in I8_TYPES]
 C10_KANI_QUICK = [_h(f"c01::{h}", timeout=3000, mem_gb=5, bound=_HIST_BOUND) for h in
-                  ["c10_h1_1_0__Minstarapproxi8", "c10_h1_1_1__Minstarapproxi8"]] + C10_SCRATCH
+                  ["c10_h1_1_0__Minstarapproxi8", "c10_h1_1_1__Minstarapproxi8"]] + C10_SCRATCH + C10_SCRATCH8
 # the layered two-call harnesses need 15-25 min and > 10 GB each: thorough tier only
-C10_KANI_THOROUGH = C10_SCRATCH_THOROUGH + [_h(f"c01::c10_h1_{p}__{n}", timeout=5400, mem_gb=(16 if n.startswith("HL") else 6), cap_gb=40, bound=_HIST_BOUND)
+C10_KANI_THOROUGH = C10_SCRATCH_THOROUGH + C10_SCRATCH8 + [_h(f"c01::c10_h1_{p}__{n}", timeout=5400, mem_gb=(16 if n.startswith("HL") else 6), cap_gb=40, bound=_HIST_BOUND)
                                    for n in MSA_FL + MSA_HL for p in ["1_0", "1_1"]]
 _C03_B = "BOUNDED: checker-supplied exact integer min-sum arithmetic, integer LLRs in [-7,7], fixed matrix, limit <= "
 C03_KANI = [_h("c03::c03_flooding_h1_l1", timeout=2400, mem_gb=6, bound=_C03_B + "1 (2x3)"),
